@@ -235,6 +235,11 @@ def run_shard(shard, tier, seed):
             valid = [x for x, c in reqs if Q.read_expect(proj, x)[0] == "ok"]
             lists.append(tuple(valid))
             lists.append(tuple(reversed(valid)))
+            # requests the driver cannot even build (unknown tag, unknown element, malformed count) in front of, between and behind
+            # the good ones: the good ones must still get their own values
+            for bad in ("no_such_tag", "no_such_tag[3]", alpha[0].split("{")[0] + "{x}"):
+                mid = len(alpha) // 2
+                lists += [(bad,) + tuple(alpha), tuple(alpha[:mid]) + (bad,) + tuple(alpha[mid:]), tuple(alpha) + (bad,), (bad, alpha[0], bad, alpha[-1])]
             for lst in lists:
                 out = call(d.read, *lst)
                 wants = [Q.read_expect(proj, x) for x in lst]
